@@ -104,11 +104,20 @@ def parse_counts(txt):
     return int(g.replace(",", "")), int(d.replace(",", ""))
 
 
-def design_check(spec, workdir, tier, dev):
+def all_check_names():
+    return sorted(set(re.findall(r'"(C\d\d:[A-Za-z0-9^]+)"', open(os.path.join(SPEC, "Props.tla")).read())))
+
+
+def watch_names(plan):
+    names = [n for n in all_check_names() if any(n.startswith(w) for w in plan["watch"])]
+    return "{" + ", ".join('"%s"' % n for n in names) + "}"
+
+
+def design_check(spec, workdir, tier, dev, watch="{}"):
     """exhaustive TLC run of a bounded model; returns dict(states, transitions, wall, cfg)"""
     src = os.path.join(SPEC, spec["cfg"])
     dst = os.path.join(workdir, os.path.basename(src))
-    subst = {"Dev": dev_value(dev)}
+    subst = {"Dev": dev_value(dev), "WatchNames": watch}
     subst.update(spec.get(tier, {}))
     tlc_cfg(src, dst, subst)
     rc, txt, dt, out = tlc(spec["module"], dst, workdir, spec.get("timeout", 600))
@@ -133,11 +142,11 @@ def design_check(spec, workdir, tier, dev):
     return dict(ok=True, states=dist, transitions=gen, wall=dt, cfg=spec["cfg"], constants=subst)
 
 
-def simulate_scripts(spec, workdir, tier, dev, seed):
+def simulate_scripts(spec, workdir, tier, dev, seed, watch="{}"):
     """TLC simulation mode: one JSON script per behaviour"""
     src = os.path.join(SPEC, spec["cfg"])
     dst = os.path.join(workdir, os.path.basename(src))
-    subst = {"Dev": dev_value(dev)}
+    subst = {"Dev": dev_value(dev), "WatchNames": watch}
     subst.update(spec.get(tier, {}))
     tlc_cfg(src, dst, subst)
     outdir = os.path.join(workdir, "scripts-" + os.path.basename(src))
@@ -158,12 +167,46 @@ def simulate_scripts(spec, workdir, tier, dev, seed):
         except Exception:
             continue
         tag = os.path.basename(src)[3:-4].lower()
-        scripts.append({"id": "%s-%d-%s" % (tag, seed, os.path.basename(f)[:-5]), "family": spec.get("family", ""), "acts": acts})
+        sc = {"id": "%s-%d-%s" % (tag, seed, os.path.basename(f)[:-5]), "family": spec.get("family", ""), "acts": acts}
+        if spec.get("script_cfg"):
+            sc["cfg"] = json.load(open(os.path.join(ROOT, "scripts", spec["script_cfg"])))
+        scripts.append(sc)
     viol = re.search(r"Invariant (\w+) is violated", txt)
     cex = None
     if viol and os.path.exists(os.path.join(outdir, "cex.json")):
         cex = {"id": "cex-" + os.path.basename(src), "family": spec.get("family", ""), "acts": json.load(open(os.path.join(outdir, "cex.json")))}
     return scripts, dict(states=gen, wall=dt, behaviours=len(scripts), model_violation=viol.group(1) if viol else None, out=out, cex=cex)
+
+
+def enumerate_scripts(spec, workdir, tier, dev, seed):
+    """exhaustive TLC run that writes out every maximal behaviour of a small bounded model; a seeded sample is replayed"""
+    import random
+    src = os.path.join(SPEC, spec["cfg"])
+    dst = os.path.join(workdir, os.path.basename(src))
+    subst = {"Dev": dev_value(dev)}
+    subst.update(spec.get(tier, {}))
+    tlc_cfg(src, dst, subst)
+    outdir = os.path.join(workdir, "enum-" + os.path.basename(src))
+    shutil.rmtree(outdir, ignore_errors=True)
+    os.makedirs(outdir)
+    rc, txt, dt, out = tlc(spec["module"], dst, workdir, spec.get("timeout", 900),
+                           env={"VERIF_OUT": outdir, "VERIF_CEX": os.path.join(outdir, "cex.json")}, workers="1")
+    if "No error has been found" not in txt:
+        raise Infra("enumeration run of %s failed, see %s" % (spec["cfg"], out))
+    gen, dist = parse_counts(txt)
+    files = sorted(glob.glob(os.path.join(outdir, "s*.json")))
+    total = len(files)
+    limit = spec["sample"][0 if tier == "quick" else 1]
+    if limit and total > limit:
+        random.Random(seed).shuffle(files)
+        files = sorted(files[:limit])
+    scripts = []
+    tag = os.path.basename(src)[3:-4].lower()
+    for f in files:
+        acts = spec.get("prefix", []) + json.load(open(f))
+        scripts.append({"id": "%s-%s" % (tag, os.path.basename(f)[:-5]), "family": spec.get("family", ""), "acts": acts})
+    shutil.rmtree(outdir, ignore_errors=True)
+    return scripts, dict(ok=True, states=dist, transitions=gen, wall=dt, cfg=spec["cfg"], constants=subst, behaviours_total=total, behaviours_replayed=len(scripts))
 
 
 def load_static(patterns):
@@ -234,6 +277,8 @@ ECON_SIM = dict(module="MC_Hub.tla", cfg="MC_EconSim.cfg", family="econ", num=(4
                 quick={"MaxLen": "40"}, thorough={"MaxLen": "70"})
 ECON2_SIM = dict(module="MC_Hub.tla", cfg="MC_Econ2Sim.cfg", family="econ", num=(40, 600), depth=200, timeout=3000,
                  quick={"MaxLen": "60"}, thorough={"MaxLen": "80"})
+FEES_SIM = dict(module="MC_Hub.tla", cfg="MC_FeesSim.cfg", family="fees", num=(60, 800), depth=240, timeout=3000,
+                quick={"MaxLen": "70"}, thorough={"MaxLen": "90"}, script_cfg="cfg_keys_prices.json")
 ATTEST_MC = dict(module="MC_Hub.tla", cfg="MC_Attest.cfg", timeout=1500, quick={"MaxLen": "6"}, thorough={"MaxLen": "9"})
 ATTEST_SIM = dict(module="MC_Hub.tla", cfg="MC_AttestSim.cfg", family="attest", num=(40, 600), depth=200, timeout=3000,
                   quick={"MaxLen": "40"}, thorough={"MaxLen": "60"})
@@ -242,14 +287,20 @@ VALSET_MC = dict(module="MC_Hub.tla", cfg="MC_Valset.cfg", timeout=1500, quick={
 VALSET_SIM = dict(module="MC_Hub.tla", cfg="MC_ValsetSim.cfg", family="valset", num=(40, 600), depth=200, timeout=3000,
                   quick={"MaxLen": "40"}, thorough={"MaxLen": "60"})
 
+REGISTRY_ENUM = dict(module="MC_Hub.tla", cfg="MC_Registry.cfg", family="valset", timeout=1500, sample=(2500, 0),
+                     prefix=[{"k": "Begin", "dt": 1}], quick={}, thorough={})
+
 PROPS = {
+    "C19": dict(mc=[], sim=[FEES_SIM], static=["fees*.ndjson", "c05_zero_share.ndjson"],
+                watch=["C19:", "conf:fr", "conf:bal", "conf:pool"],
+                need={"ExtExec/ok": 3, "Claim/ok": 9, "End/ok": 5}),
     "C09": dict(mc=[VALSET_MC], sim=[VALSET_SIM], static=["valset*.ndjson"],
                 watch=["C09:", "conf:ss"],
                 need={"SetKeys/ok": 3, "Begin/ok": 5, "Stake/ok": 2}),
     "C16": dict(mc=[VALSET_MC], sim=[VALSET_SIM], static=["valset*.ndjson"],
                 watch=["C16:", "conf:sigs"],
                 need={"SetKeys/ok": 3, "Confirm/ok": 2, "Confirm/err": 2}),
-    "C17": dict(mc=[VALSET_MC], sim=[VALSET_SIM], static=["valset*.ndjson"],
+    "C17": dict(mc=[VALSET_MC], enum=[REGISTRY_ENUM], sim=[VALSET_SIM], static=["valset*.ndjson"],
                 watch=["C17:", "conf:keys"],
                 need={"SetKeys/ok": 3, "SetKeys/err": 3}),
     "C01": dict(mc=[ECON_MC], sim=[ECON_SIM, ECON2_SIM], static=["econ*.ndjson"],
@@ -258,7 +309,7 @@ PROPS = {
     "C02": dict(mc=[ATTEST_MC], sim=[ATTEST_SIM, ECON_SIM], static=["attest*.ndjson"],
                 watch=["C02:", "conf:votes", "conf:lon"],
                 need={"Claim/ok": 5, "Claim/err": 1, "End/ok": 3, "Stake/ok": 1}),
-    "C11": dict(mc=[ECON_MC], sim=[ECON_SIM], static=["econ*.ndjson"],
+    "C11": dict(mc=[ECON_MC], sim=[ECON_SIM, FEES_SIM], static=["econ*.ndjson"],
                 watch=["C11:", "conf:bal", "conf:sup", "conf:pool", "conf:out"],
                 need={"Send/ok": 5, "Send/err": 1, "Claim/ok": 6, "End/ok": 3}),
     "C03": dict(mc=[ATTEST_MC], sim=[ATTEST_SIM, ECON_SIM], static=["attest*.ndjson"],
@@ -317,7 +368,7 @@ def check_hub_property(prop, tier, seed, replay_file=None):
                 scripts.append(json.loads(line))
     else:
         for spec in plan["mc"]:
-            r = design_check(spec, workdir, tier, dev)
+            r = design_check(spec, workdir, tier, dev, watch_names(plan))
             mc_results.append(r)
             log("[%s] design check %s: %d distinct states, %d transitions, %.0fs, ok=%s" % (prop, spec["cfg"], r["states"], r["transitions"], r["wall"], r["ok"]))
             if not r["ok"]:
@@ -327,8 +378,13 @@ def check_hub_property(prop, tier, seed, replay_file=None):
                     cex_scripts.append(r["cex"])
                 else:
                     raise Infra("the bounded model %s fails (%s) and no counterexample script could be extracted; see %s" % (spec["cfg"], r.get("invariant"), r.get("out")))
+        for spec in plan.get("enum", []):
+            s, r = enumerate_scripts(spec, workdir, tier, dev, seed)
+            log("[%s] enumeration %s: %d distinct states, all %d maximal behaviours written, %d replayed (%.0fs)" % (prop, spec["cfg"], r["states"], r["behaviours_total"], r["behaviours_replayed"], r["wall"]))
+            scripts += s
+            mc_results.append(r)
         for spec in plan["sim"]:
-            s, st = simulate_scripts(spec, workdir, tier, dev, seed)
+            s, st = simulate_scripts(spec, workdir, tier, dev, seed, watch_names(plan))
             log("[%s] simulation %s: %d behaviours, %d states, %.0fs" % (prop, spec["cfg"], len(s), st["states"], st["wall"]))
             if st["model_violation"]:
                 if st.get("cex"):
